@@ -762,11 +762,16 @@ class LoginReactor(PacketReactor):
             cipher = encryption.create_AES_cipher(secret)
             encryptor = cipher.encryptor()
             decryptor = cipher.decryptor()
-            self.connection.socket = encryption.EncryptedSocketWrapper(
-                self.connection.socket, encryptor, decryptor)
-            self.connection.file_object = \
-                encryption.EncryptedFileObjectWrapper(
-                    self.connection.file_object, decryptor)
+            with self.connection._write_lock:
+                # Unless disconnect() was called from another thread in the
+                # meantime (it sets 'socket' to None):
+                if self.connection.socket is not None:
+                    self.connection.socket = \
+                        encryption.EncryptedSocketWrapper(
+                            self.connection.socket, encryptor, decryptor)
+                    self.connection.file_object = \
+                        encryption.EncryptedFileObjectWrapper(
+                            self.connection.file_object, decryptor)
 
         elif packet.packet_name == "disconnect":
             # Receiving a disconnect packet in the login state indicates an
